@@ -29,6 +29,8 @@ impl MlpgMatrix {
         let mut wuw = Vec::with_capacity(length);
 
         for t in 0..length {
+            #[cfg(jbonsai_verif)]
+            crate::verif::yield_point(16);
             wuw.push(vec![0.0; width]);
             wum.push(0.0);
 
@@ -72,12 +74,16 @@ impl MlpgMatrix {
     /// Solve equation $W^T U^{-1} W c = W^T U^{-1} \mu$ and return the vector $c$.
     pub fn solve(&mut self) -> Vec<f64> {
         self.ldl_factorization();
+        #[cfg(jbonsai_verif)]
+        crate::verif::yield_point(13);
         self.substitutions()
     }
 
     /// Perform Cholesky decomposition.
     fn ldl_factorization(&mut self) {
         for t in 0..self.length {
+            #[cfg(jbonsai_verif)]
+            crate::verif::yield_point(14);
             for i in 1..self.width.min(t + 1) {
                 self.wuw[t][0] -= self.wuw[t - i][i] * self.wuw[t - i][i] * self.wuw[t - i][0];
             }
@@ -124,6 +130,8 @@ impl MlpgMatrix {
         msd_flag: &Mask,
     ) -> Vec<f64> {
         if let Some((gv_param, gv_switch)) = gv {
+            #[cfg(jbonsai_verif)]
+            crate::verif::yield_point(17);
             let mtx_before = self.clone();
             let par = self.solve();
             let gv_switch: Vec<_> = gv_switch
@@ -271,6 +279,8 @@ impl<'a> MlpgGlobalVariance<'a> {
         let mut prev = 0.0;
         self.conv_gv(gv_mean);
         for i in 1..=GV_MAX_ITERATION {
+            #[cfg(jbonsai_verif)]
+            crate::verif::yield_point(15);
             let (mean, vari) = self.calc_gv();
 
             let gvobj = -0.5 * W2 * vari * gv_vari * (vari - 2.0 * gv_mean);
